@@ -2,6 +2,8 @@ from propsdef import KERNEL, CORR, HARNESS
 
 PROP = {
     "obligations": [
+        "Xt.Props.C18.msgpack_fixed_point",
+        "Xt.Props.C18.msgpack_fixed_point_any_input",
         "json_output_is_fixed_point",
         "Xt.Props.Json.json_fixed_point", "Xt.Props.Json.json_fixed_point_floats",
         "Xt.Props.Json.json_roundtrip", "Xt.Props.Json.json_frame_recover",
